@@ -20,7 +20,7 @@ import vplib
 import prop_lib as pl
 
 VFILES = ["PropTree/PropModel.v", "PropTree/DocSpec.v", "PropTree/PropProofs.v",
-          "PropTree/QuoteProofs.v", "PropTree/RebuildProofs.v", "PropTree/ApiProofs.v", "PropTree/WfProofs.v",
+          "PropTree/QuoteProofs.v", "PropTree/RebuildProofs.v", "PropTree/ApiProofs.v", "PropTree/WfProofs.v", "PropTree/DescGrammar.v", "PropTree/GrammarProofs.v",
           "Properties_C13.v"]
 
 # (name, script): probes for the candidate defects of DESIGN.md section 7 and for boundary cases;
